@@ -91,7 +91,7 @@ class Run:
         return self.exit == 101 or b"panicked at" in self.stderr or (self.signal in (signal.SIGABRT, signal.SIGSEGV, signal.SIGBUS, signal.SIGILL))
 
 
-def run_breadlog(config_path, check=False, cwd=None, env=None, tmpdir=None, timeout=60, shim=None, binary=None, wrapper=()):
+def run_breadlog(config_path, check=False, cwd=None, env=None, tmpdir=None, timeout=60, shim=None, binary=None, wrapper=(), ignored_at_entry=()):
     """shim: dict(log=path, roots=[...], plan=str) to run under the interposer."""
     import time
     e = dict(os.environ if env is None else env)
@@ -114,7 +114,14 @@ def run_breadlog(config_path, check=False, cwd=None, env=None, tmpdir=None, time
     t0 = time.time()
     ru0 = resource.getrusage(resource.RUSAGE_CHILDREN)
     try:
-        p = subprocess.run(cmd, cwd=cwd, env=e, stdout=subprocess.PIPE, stderr=subprocess.PIPE, timeout=timeout)
+        pre = None
+        if ignored_at_entry:
+            sigs = tuple(ignored_at_entry)
+
+            def pre():      # dispositions the process inherits (what `nohup` or a non-interactive shell's `&` set up)
+                for sg in sigs:
+                    signal.signal(sg, signal.SIG_IGN)
+        p = subprocess.run(cmd, cwd=cwd, env=e, stdout=subprocess.PIPE, stderr=subprocess.PIPE, timeout=timeout, preexec_fn=pre)
         r.timed_out = False
         r.stdout, r.stderr = p.stdout, p.stderr
         if p.returncode < 0:
